@@ -65,8 +65,9 @@ SPEC = dict(
         "and MGDA is compared with the tight tolerance only when its Frank-Wolfe trajectory has no argmin tie (margin >= 1e-9); on a "
         "tie, rounding decides the vertex, so only the bound both results satisfy w.r.t. the min-norm point is asserted: "
         "|x-x'| <= 2 s sqrt(max(8 epsilon, 16/(max_iters+2)))",
-        "tolerances: 1e-9 * sigma_max(J) * max(1, |weights|_inf); CAGrad 1e-5 (Clarabel stops at 1e-8 feasibility / gap, the output "
-        "direction g_w/|g_w| inherits its square root at flat optima); x = w @ J: 1e-12 * s * |w| * m",
+        "tolerances: 1e-9 * sigma_max(J) * max(1, |weights|_inf); CAGrad 1e-4 (Clarabel stops at a 1e-8 duality gap; the objective "
+        "g0.g + c|g0||g| has curvature c|g0|/|g| only, so the direction g_w/|g_w| the output depends on is determined to about "
+        "sqrt(1e-8) = 1e-4; observed worst 4e-6); x = w @ J: 1e-12 * s * |w| * m",
         "NashMTL (stateful, excluded from the deterministic clause) takes part in the row-span clause only, on a fresh instance, "
         "on the dense family and the structural sublist of 2x2 / 2x3",
         "the orbit cases compare two recorded executions instead of re-executing A(J) for each Q: this relies on nothing but the "
@@ -76,7 +77,7 @@ SPEC = dict(
 
 DETERMINISM_SLICE = 8
 TOL = 1e-9
-TOL_BY_AGG = {"CAGrad": 1e-5}
+TOL_BY_AGG = {"CAGrad": 1e-4}
 ANGLES = (math.pi / 7, 1.0, 2.5)
 SLOW = ("MGDA", "CAGrad")
 QUICK_SHAPES = [(1, 1), (1, 2), (1, 3), (2, 1), (2, 2), (2, 3), (3, 1), (3, 2)]
